@@ -20,7 +20,7 @@ func (w *vFailWriter) Write(p []byte) (int, error) {
 
 // VH_C19_closest: a failed write at any point (header, early row, last row) makes closest return an error.
 func VH_C19_closest() {
-	mode := vChoice("mode", 3) // 0 plain closest, 1 -n 2, 2 -n 2 --table
+	mode := vChoice("mode", 5) // 0 plain closest, 1 -n 2, 2 -n 2 --table, 3 -d 0 (some queries have no neighbour), 4 -d 0 --table
 	measure := vMeasureName(vChoice("measure", 3))
 	q := []byte(">q0\nACGT\n>q1\nACGA\n")
 	t := []byte(">t0\nACGT\n>t1\nACGA\n>t2\nTCGT\n")
@@ -30,6 +30,11 @@ func VH_C19_closest() {
 			return Closest(bytes.NewReader(q), bytes.NewReader(t), measure, w, 2)
 		case 1:
 			return ClosestN(2, -1.0, bytes.NewReader(q), bytes.NewReader(t), measure, w, false, 2)
+		case 3, 4:
+			// q0 has t0 at distance 0; the other queries have nothing within the distance: rows without neighbours,
+			// in the middle and at the end of the output
+			qd := []byte(">q0\nACGT\n>q1\nGGGG\n>q2\nACGT\n>q3\nCCCC\n")
+			return ClosestN(0, 0.0, bytes.NewReader(qd), bytes.NewReader(t), measure, w, mode == 4, 2)
 		}
 		return ClosestN(2, -1.0, bytes.NewReader(q), bytes.NewReader(t), measure, w, true, 2)
 	}
@@ -38,7 +43,7 @@ func VH_C19_closest() {
 	k := 1 + vChoice("k", w0.n)
 	if mode == 0 {
 		vNote("writer:writeClosest")
-	} else if mode == 1 {
+	} else if mode == 1 || mode == 3 {
 		vNote("writer:writeClosestN")
 	} else {
 		vNote("writer:writeClosestNTable")
